@@ -507,11 +507,14 @@ Qed.
 Lemma zlen_perm {A} (l1 l2 : list A) : Permutation l1 l2 -> zlen l1 = zlen l2.
 Proof. intros H. rewrite !zlen_length. f_equal. apply Permutation_length. exact H. Qed.
 
-Lemma sort_spec a :
+Lemma sort_by_perm c (l : list elt) : Permutation l (sort_by c l).
+Proof. destruct c; [apply EltSort.Permuted_sort|apply EltSortDesc.Permuted_sort]. Qed.
+
+Lemma sort_spec c a :
   Inv a ->
-  match al_sort a with
+  match al_sort c a with
   | AOk a' r rel ws =>
-      Inv a' /\ al_abs a' = EltSort.sort (al_abs a) /\ rel = [] /\ r = 0 /\ Forall (wr_ok (asize a')) ws
+      Inv a' /\ al_abs a' = sort_by c (al_abs a) /\ rel = [] /\ r = 0 /\ Forall (wr_ok (asize a')) ws
   | AFail _ => False
   | AUB => False
   end.
@@ -520,10 +523,10 @@ Proof.
   assert (E : (alen a >? asize a) = false) by lia. rewrite E.
   fold (al_cells a). rewrite Hc, cell_vals_map_Val.
   destruct (inv_decomp a HI) as (T & Hsl & HL & HT).
-  pose proof (zlen_perm _ _ (EltSort.Permuted_sort (al_abs a))) as HP.
-  destruct (inv_of_decomp (write_cells (slots a) 0 (map Val (EltSort.sort (al_abs a))))
-              (EltSort.sort (al_abs a)) T (alen a) (asize a)) as [HI' HA'].
-  - change (map Val (EltSort.sort (al_abs a)) ++ T) with ([] ++ map Val (EltSort.sort (al_abs a)) ++ T).
+  pose proof (zlen_perm _ _ (sort_by_perm c (al_abs a))) as HP.
+  destruct (inv_of_decomp (write_cells (slots a) 0 (map Val (sort_by c (al_abs a))))
+              (sort_by c (al_abs a)) T (alen a) (asize a)) as [HI' HA'].
+  - change (map Val (sort_by c (al_abs a)) ++ T) with ([] ++ map Val (sort_by c (al_abs a)) ++ T).
     apply (write_cells_decomp _ _ (map Val (al_abs a))); [exact Hsl|reflexivity|].
     rewrite !zlen_map. exact HP.
   - lia.
@@ -561,15 +564,32 @@ Qed.
 Lemma elt_le_total a b : elt_le a b \/ elt_le b a.
 Proof. apply EltOrder.leb_total. Qed.
 
-Theorem sort_perm_sorted (l : list elt) :
-  Permutation l (EltSort.sort l) /\ StronglySorted elt_le (EltSort.sort l).
+(* the order comparator [c] stands for *)
+Definition le_by (c : cmpsel) (a b : elt) : Prop :=
+  match c with Asc => elt_le a b | Desc => elt_le b a end.
+
+Lemma le_by_refl c a : le_by c a a.
+Proof. destruct c; apply elt_le_refl. Qed.
+
+Lemma le_by_trans c : RelationClasses.Transitive (le_by c).
 Proof.
-  split; [apply EltSort.Permuted_sort|]. apply EltSort.StronglySorted_sort. exact elt_le_trans.
+  destruct c; [exact elt_le_trans|]. intros x y z H1 H2. cbn in *. exact (elt_le_trans _ _ _ H2 H1).
+Qed.
+
+Lemma le_by_antisym c a b : le_by c a b -> le_by c b a -> a = b.
+Proof. destruct c; cbn; intros H1 H2; [apply elt_le_antisym|symmetry; apply elt_le_antisym]; assumption. Qed.
+
+Theorem sort_perm_sorted c (l : list elt) :
+  Permutation l (sort_by c l) /\ StronglySorted (le_by c) (sort_by c l).
+Proof.
+  split; [apply sort_by_perm|]. destruct c.
+  - apply EltSort.StronglySorted_sort. exact elt_le_trans.
+  - apply EltSortDesc.StronglySorted_sort. exact (le_by_trans Desc).
 Qed.
 
 (* a sorted permutation is unique: whatever correct sort libc uses, the key sequence is this one *)
-Theorem sorted_perm_unique (l1 : list elt) : forall l2,
-  Permutation l1 l2 -> StronglySorted elt_le l1 -> StronglySorted elt_le l2 -> l1 = l2.
+Theorem sorted_perm_unique c (l1 : list elt) : forall l2,
+  Permutation l1 l2 -> StronglySorted (le_by c) l1 -> StronglySorted (le_by c) l2 -> l1 = l2.
 Proof.
   induction l1 as [|x t IH]; intros l2 HP H1 H2.
   - symmetry. apply Permutation_nil. exact HP.
@@ -581,7 +601,7 @@ Proof.
     { assert (Iy : In y (x :: t)) by (eapply Permutation_in; [apply Permutation_sym; exact HP|left; reflexivity]).
       assert (Ix : In x (y :: u)) by (eapply Permutation_in; [exact HP|left; reflexivity]).
       destruct Iy as [->|Iy]; [reflexivity|]. destruct Ix as [->|Ix]; [reflexivity|].
-      rewrite Forall_forall in F1, F2. apply elt_le_antisym; auto. }
+      rewrite Forall_forall in F1, F2. apply (le_by_antisym c); auto. }
     subst y. f_equal. apply IH; try assumption. eapply Permutation_cons_inv. exact HP.
 Qed.
 
@@ -615,9 +635,25 @@ Proof.
   rewrite Z.compare_gt_iff in H. lia.
 Qed.
 
-Lemma bsearch_list_iff k : forall fuel l,
-  zlen l < Z.of_nat fuel -> StronglySorted elt_le l ->
-  (bsearch_list fuel l k = true <-> In k l).
+Lemma elt_compare_opp a b : elt_compare b a = CompOpp (elt_compare a b).
+Proof. destruct a as [x|], b as [y|]; cbn; try reflexivity. apply Z.compare_antisym. Qed.
+
+Lemma cmpby_eq c k x : compare_by c k x = Eq -> k = x.
+Proof. destruct c; cbn; intros H; [apply cmp_eq; exact H|symmetry; apply cmp_eq; exact H]. Qed.
+Lemma cmpby_lt c k x y : compare_by c k x = Lt -> le_by c x y -> k <> y.
+Proof.
+  destruct c; cbn; intros H L; [eapply cmp_lt; eassumption|].
+  eapply cmp_gt; [|exact L]. rewrite elt_compare_opp, H. reflexivity.
+Qed.
+Lemma cmpby_gt c k x y : compare_by c k x = Gt -> le_by c y x -> k <> y.
+Proof.
+  destruct c; cbn; intros H L; [eapply cmp_gt; eassumption|].
+  eapply cmp_lt; [|exact L]. rewrite elt_compare_opp, H. reflexivity.
+Qed.
+
+Lemma bsearch_list_iff c k : forall fuel l,
+  zlen l < Z.of_nat fuel -> StronglySorted (le_by c) l ->
+  (bsearch_list c fuel l k = true <-> In k l).
 Proof.
   induction fuel as [|f IH]; intros l Hf HS.
   { pose proof (zlen_nonneg l). lia. }
@@ -639,22 +675,22 @@ Proof.
     rewrite El in HS. apply ss_app_inv in HS. destruct HS as (S1 & S2 & C).
     apply StronglySorted_inv in S2. destruct S2 as [S2 F2]. rewrite Forall_forall in F2.
     pose proof (in_app_iff (zfirstn m l) (x :: r) k) as Hin. rewrite <- El in Hin. cbn [In] in Hin.
-    destruct (elt_compare k x) eqn:Ec.
-    + apply cmp_eq in Ec. subst x. split; [|reflexivity]. intros _. apply Hin. right. left. reflexivity.
+    destruct (compare_by c k x) eqn:Ec.
+    + apply cmpby_eq in Ec. subst x. split; [|reflexivity]. intros _. apply Hin. right. left. reflexivity.
     + rewrite IH by (assumption || lia). rewrite Hin.
       split; [auto|]. intros [H|[H|H]]; [exact H| |].
-      * exfalso. eapply cmp_lt; [exact Ec|apply elt_le_refl|congruence].
-      * exfalso. eapply cmp_lt; [exact Ec|apply F2; exact H|reflexivity].
+      * exfalso. eapply cmpby_lt; [exact Ec|apply le_by_refl|congruence].
+      * exfalso. eapply cmpby_lt; [exact Ec|apply F2; exact H|reflexivity].
     + rewrite IH by (assumption || lia). rewrite Hin.
       split; [intros H; right; right; exact H|]. intros [H|[H|H]]; [| |exact H].
-      * exfalso. eapply cmp_gt; [exact Ec|apply (C k x); [exact H|left; reflexivity]|reflexivity].
-      * exfalso. eapply cmp_gt; [exact Ec|apply elt_le_refl|congruence].
+      * exfalso. eapply cmpby_gt; [exact Ec|apply (C k x); [exact H|left; reflexivity]|reflexivity].
+      * exfalso. eapply cmpby_gt; [exact Ec|apply le_by_refl|congruence].
 Qed.
 
-Theorem bsearch_spec a k :
+Theorem bsearch_spec c a k :
   Inv a ->
-  exists b, al_bsearch a k = Some b /\
-            (StronglySorted elt_le (al_abs a) -> (b = true <-> In k (al_abs a))).
+  exists b, al_bsearch c a k = Some b /\
+            (StronglySorted (le_by c) (al_abs a) -> (b = true <-> In k (al_abs a))).
 Proof.
   intros HI. pose proof HI as (Hm & Hl & Hs & Hc). unfold al_bsearch.
   assert (E : (alen a >? asize a) = false) by lia. rewrite E.
@@ -664,14 +700,92 @@ Proof.
 Qed.
 
 (* sort, then search: found iff the key was an element before sorting *)
-Theorem sort_then_bsearch a k a' r rel ws :
-  Inv a -> al_sort a = AOk a' r rel ws ->
-  exists b, al_bsearch a' k = Some b /\ (b = true <-> In k (al_abs a)).
+Theorem sort_then_bsearch c a k a' r rel ws :
+  Inv a -> al_sort c a = AOk a' r rel ws ->
+  exists b, al_bsearch c a' k = Some b /\ (b = true <-> In k (al_abs a)).
 Proof.
-  intros HI H. pose proof (sort_spec a HI) as S. rewrite H in S. destruct S as (HI' & HA & _).
-  destruct (bsearch_spec a' k HI') as (b & Hb & Hiff). exists b. split; [exact Hb|].
-  destruct (sort_perm_sorted (al_abs a)) as [HP HS]. rewrite HA in Hiff. rewrite (Hiff HS).
+  intros HI H. pose proof (sort_spec c a HI) as S. rewrite H in S. destruct S as (HI' & HA & _).
+  destruct (bsearch_spec c a' k HI') as (b & Hb & Hiff). exists b. split; [exact Hb|].
+  destruct (sort_perm_sorted c (al_abs a)) as [HP HS]. rewrite HA in Hiff. rewrite (Hiff HS).
   split; intros Hin; eapply Permutation_in; try exact Hin; [apply Permutation_sym|]; exact HP.
+Qed.
+
+(* ---------------- sorting has no hidden state ---------------- *)
+(* in ANY state satisfying the invariant (so: after any history, see [sort_after_any_history])
+   a sort by [c] succeeds and leaves a permutation of the current contents ordered by [c] *)
+Theorem sort_any_state c a :
+  Inv a ->
+  exists a' rel ws, al_sort c a = AOk a' 0 rel ws /\ Inv a' /\ rel = [] /\
+                    Permutation (al_abs a) (al_abs a') /\ StronglySorted (le_by c) (al_abs a') /\
+                    alen a' = alen a /\ asize a' = asize a.
+Proof.
+  intros HI. pose proof (sort_spec c a HI) as S. pose proof HI as (Hm & Hl & Hs & Hc). unfold al_sort in *.
+  assert (E : (alen a >? asize a) = false) by lia. rewrite E in *.
+  destruct (cell_vals (zfirstn (alen a) (slots a))) as [vs|]; [|contradiction].
+  destruct S as (S1 & S2 & S3 & S4 & S5). eexists _, _, _. split; [reflexivity|].
+  destruct (sort_perm_sorted c (al_abs a)) as [HP HS]. rewrite S2.
+  refine (conj S1 (conj eq_refl (conj HP (conj HS (conj eq_refl eq_refl))))).
+Qed.
+
+(* the result depends on the current contents and the comparator only *)
+Theorem sort_depends_only_on_contents c a1 a2 a1' a2' r1 r2 rel1 rel2 ws1 ws2 :
+  Inv a1 -> Inv a2 -> al_abs a1 = al_abs a2 ->
+  al_sort c a1 = AOk a1' r1 rel1 ws1 -> al_sort c a2 = AOk a2' r2 rel2 ws2 ->
+  al_abs a1' = al_abs a2'.
+Proof.
+  intros H1 H2 E S1 S2. pose proof (sort_spec c a1 H1) as P1. pose proof (sort_spec c a2 H2) as P2.
+  rewrite S1 in P1. rewrite S2 in P2. destruct P1 as (_ & -> & _). destruct P2 as (_ & -> & _).
+  rewrite E. reflexivity.
+Qed.
+
+(* sorting an array that is already ordered by [c] changes nothing: a second sort may not be
+   skipped only if nothing at all changed in between *)
+Theorem sort_sorted_id c a a' r rel ws :
+  Inv a -> StronglySorted (le_by c) (al_abs a) -> al_sort c a = AOk a' r rel ws -> al_abs a' = al_abs a.
+Proof.
+  intros HI HS H. pose proof (sort_spec c a HI) as P. rewrite H in P. destruct P as (_ & -> & _).
+  destruct (sort_perm_sorted c (al_abs a)) as [HP HS']. symmetry.
+  apply (sorted_perm_unique c); assumption.
+Qed.
+
+(* ---------------- in-place change of an element's value ---------------- *)
+Lemma sget_some_lt (l : spec) i x : 0 <= i -> sget l i = Some x -> i < zlen l.
+Proof.
+  intros Hi H. destruct (Z.lt_ge_cases i (zlen l)) as [L|L]; [exact L|].
+  rewrite sget_past_end in H by lia. discriminate.
+Qed.
+
+Lemma setval_spec a i v :
+  Inv a -> 0 <= i ->
+  match al_setval a i v with
+  | AOk a' r rel ws =>
+      Inv a' /\ al_abs a' = ssetval (al_abs a) i v /\ rel = [] /\
+      r = (match sget (al_abs a) i with Some _ => 1 | None => 0 end) /\ ws = [] /\
+      asize a' = asize a /\ alen a' = alen a
+  | AFail _ => False
+  | AUB => False
+  end.
+Proof.
+  intros HI Hi. pose proof HI as (Hm & Hl & Hs & Hc). unfold al_setval, ssetval.
+  rewrite (get_spec a i HI Hi).
+  destruct (sget (al_abs a) i) as [x|] eqn:G.
+  2:{ refine (conj HI _). repeat split. }
+  destruct (inv_decomp a HI) as (T & Hsl & HL & HT).
+  pose proof (sget_some_lt _ _ _ Hi G) as Hlt.
+  remember (al_abs a) as L eqn:EqL.
+  destruct (zsplit_ex L i) as (L1 & R & -> & HL1 & HR); [lia|].
+  destruct (zlen_cons_inv R) as (y & L2 & -> & HL2); [lia|].
+  destruct (split3 L1 y L2 i HL1) as (F1 & F2 & F3 & _).
+  assert (Hsl' : slots a = map Val L1 ++ [Val y] ++ (map Val L2 ++ T)).
+  { rewrite Hsl, map_app. cbn [map]. rewrite <- app_assoc. reflexivity. }
+  destruct (inv_of_decomp (write_cells (slots a) i [Val (Some v)]) (L1 ++ [Some v] ++ L2) T (alen a) (asize a))
+    as [HI' HA'].
+  - rewrite !map_app. cbn [map]. rewrite <- !app_assoc.
+    apply (write_cells_decomp _ _ [Val y]); [exact Hsl'|rewrite zlen_map; exact HL1|reflexivity].
+  - rewrite !zlen_app in *. cbn [zlen] in *. lia.
+  - unfold write_cells. cbn [zlen]. rewrite !zlen_app, zlen_zfirstn, zlen_zskipn. cbn [zlen]. lia.
+  - exact Hs.
+  - refine (conj HI' _). rewrite HA', F1, F2. cbn [asize alen]. repeat split.
 Qed.
 
 (* ---------------- one step of a history ---------------- *)
@@ -679,8 +793,8 @@ Definition in_sz (z : Z) : Prop := 0 <= z <= SIZE_MAX.     (* the argument is a 
 Ltac zl ::= rewrite ?maxslots, ?halfmax in *; unfold in_sz, in_size, SIZE_MAX, PTR in *; lia.
 Definition op_wf (o : alop) : Prop :=
   match o with
-  | OAdd _ | OSort => True
-  | OPut i _ | OInsert i _ => in_sz i
+  | OAdd _ | OSort _ => True
+  | OPut i _ | OInsert i _ | OSetVal i _ => in_sz i
   | ODel i c => in_sz i /\ in_sz c
   | OShrink n => in_sz n
   end.
@@ -689,14 +803,15 @@ Theorem step_spec al a o :
   Inv a -> op_wf o ->
   match al_step al a o with
   | AOk a' r rel ws =>
-      Inv a' /\ al_abs a' = fst (spec_step (al_abs a) o) /\ rel = snd (spec_step (al_abs a) o) /\ r = 0 /\
+      Inv a' /\ al_abs a' = fst (spec_step (al_abs a) o) /\ rel = snd (spec_step (al_abs a) o) /\
+      r = spec_ret (al_abs a) o /\
       Forall (wr_ok (asize a')) ws /\ spec_ok (al_abs a) o = true
   | AFail a' => a' = a
   | AUB => False
   end.
 Proof.
   intros HI Hwf. pose proof (abs_len a HI) as Hal.
-  destruct o as [e|i e|i e|i c|n|]; cbn [al_step spec_step spec_ok fst snd op_wf] in *; rewrite ?Hal.
+  destruct o as [e|i e|i e|i c|n|cs|i v]; cbn [al_step spec_step spec_ok spec_ret fst snd op_wf] in *; rewrite ?Hal.
   - pose proof (add_spec al a e HI) as S. destruct (al_add al a e); [|exact S|exact S].
     destruct S as (S1 & S2 & S3 & S4 & S5 & S6). refine (conj S1 (conj S2 (conj S3 (conj S4 (conj S5 _))))). lia.
   - pose proof (put_spec al a i e HI Hwf) as S. destruct (al_put al a i e); [|exact S|exact S].
@@ -711,9 +826,12 @@ Proof.
   - pose proof (shrink_spec al a n HI Hwf) as S. destruct (al_shrink al a n); [|exact S|exact S].
     destruct S as (S1 & S2 & S3 & S4 & S5 & S6). subst ws.
     refine (conj S1 (conj S2 (conj S3 (conj S4 (conj (Forall_nil _) _))))). lia.
-  - pose proof (sort_spec a HI) as S. destruct (al_sort a); [|contradiction|exact S].
+  - pose proof (sort_spec cs a HI) as S. destruct (al_sort cs a); [|contradiction|exact S].
     destruct S as (S1 & S2 & S3 & S4 & S5).
     exact (conj S1 (conj S2 (conj S3 (conj S4 (conj S5 eq_refl))))).
+  - pose proof (setval_spec a i v HI (proj1 Hwf)) as S. destruct (al_setval a i v); [|contradiction|exact S].
+    destruct S as (S1 & S2 & S3 & S4 & S5 & _). subst ws.
+    exact (conj S1 (conj S2 (conj S3 (conj S4 (conj (Forall_nil _) eq_refl))))).
 Qed.
 
 (* out-of-range arguments: the operation fails and nothing changes *)
@@ -815,6 +933,24 @@ Proof.
   split; [intros i Hi; apply get_spec; assumption|apply length_spec; exact HIq].
 Qed.
 
+(* after ANY history (adds, puts, inserts, deletes, shrinks, earlier sorts by either comparator,
+   in-place value changes; any allocator behaviour; any initial capacity) a sort by [c] yields a
+   permutation of the contents at that moment, ordered by [c], and a search by [c] then finds a
+   key iff it is an element *)
+Theorem sort_after_any_history al n ops a0 c k :
+  al_new2 al n = NOk a0 -> Forall op_wf ops ->
+  exists q oks rs q' ws b,
+    al_run al a0 ops = Some (q, oks, rs) /\ al_sort c q = AOk q' 0 [] ws /\
+    Permutation (al_abs q) (al_abs q') /\ StronglySorted (le_by c) (al_abs q') /\
+    al_bsearch c q' k = Some b /\ (b = true <-> In k (al_abs q)).
+Proof.
+  intros Hn Hwf. pose proof (new2_spec al n) as N. rewrite Hn in N. destruct N as (HI0 & _).
+  destruct (run_refines al ops a0 HI0 Hwf) as (q & oks & rs & Hr & HIq & _).
+  destruct (sort_any_state c q HIq) as (q' & rel & ws & Hs & HI' & -> & HP & HS & _).
+  destruct (sort_then_bsearch c q k q' 0 [] ws HIq Hs) as (b & Hb & Hiff).
+  exists q, oks, rs, q', ws, b. auto 10.
+Qed.
+
 (* ---------------- refusals are never spurious ---------------- *)
 (* when the allocator cooperates, every operation with in-range arguments is served
    (the side condition on the capacity excludes arrays above 2^60 slots, where the doubling
@@ -833,7 +969,7 @@ Theorem fitting_request_served a o :
 Proof.
   intros HI Hwf Hok H2. pose proof (abs_len a HI) as Hal. pose proof HI as (Hm & Hl & Hs & Hc).
   pose proof (step_spec (fun _ => true) a o HI Hwf) as S. revert S.
-  destruct o as [e|i e|i e|i c|n|]; cbn [al_step spec_ok op_wf] in *; rewrite ?Hal in Hok.
+  destruct o as [e|i e|i e|i c|n|cs|i v]; cbn [al_step spec_ok op_wf] in *; rewrite ?Hal in Hok.
   - unfold al_add. destruct (alen a >? SIZE_MAX - 1) eqn:E1; [zl|].
     assert (Hi : in_size (alen a + 1) = true) by zl. rewrite Hi; cbn [negb].
     destruct (expand_served a (alen a + 1)) as [a1 ->]; [exact HI|lia|exact H2|]. leaves.
@@ -859,8 +995,10 @@ Proof.
     destruct (alen a + n >? asize a) eqn:E3.
     + destruct (expand_served a (alen a + n)) as [a1 ->]; [exact HI|lia|exact H2|]. eauto.
     + leaves.
-  - intros _. pose proof (sort_spec a HI) as S.
-    destruct (al_sort a) as [a' r rel ws|a'|]; [eauto|exact (False_ind _ S)|exact (False_ind _ S)].
+  - intros _. pose proof (sort_spec cs a HI) as S.
+    destruct (al_sort cs a) as [a' r rel ws|a'|]; [eauto|exact (False_ind _ S)|exact (False_ind _ S)].
+  - intros _. pose proof (setval_spec a i v HI (proj1 Hwf)) as S.
+    destruct (al_setval a i v) as [a' r rel ws|a'|]; [eauto|exact (False_ind _ S)|exact (False_ind _ S)].
 Qed.
 
 (* ---------------- conservation: every element handed over is released exactly once ---------------- *)
@@ -887,11 +1025,15 @@ Proof.
   - rewrite !nonnull_app, nonnull_repeat_None, app_nil_r. reflexivity.
 Qed.
 
+(* elements are named by their value: the accounting below is for histories that do not change
+   values in place (an in-place change renames an element, it neither adds nor releases one) *)
+Definition no_setval (o : alop) : Prop := match o with OSetVal _ _ => False | _ => True end.
+
 Lemma spec_step_conserves l o :
-  op_wf o -> spec_ok l o = true ->
+  op_wf o -> no_setval o -> spec_ok l o = true ->
   Permutation (nonnull l ++ given o) (nonnull (fst (spec_step l o)) ++ snd (spec_step l o)).
 Proof.
-  intros Hwf Hok. destruct o as [e|i e|i e|i c|n|]; cbn [spec_step given fst snd spec_ok op_wf] in *.
+  intros Hwf Hns Hok. destruct o as [e|i e|i e|i c|n|cs|i v]; cbn [spec_step given fst snd spec_ok op_wf no_setval] in *.
   - rewrite nonnull_app, app_nil_r. reflexivity.
   - apply put_conserves. apply Hwf.
   - unfold sinsert. destruct (i >=? zlen l) eqn:E; [apply put_conserves; apply Hwf|].
@@ -908,7 +1050,8 @@ Proof.
     rewrite (app_assoc L1 L2 L3), (zskipn_app_exact (i + c)) by (rewrite zlen_app; lia).
     rewrite !nonnull_app, app_nil_r, <- !app_assoc. apply Permutation_app_head. apply Permutation_app_comm.
   - rewrite !app_nil_r. reflexivity.
-  - rewrite !app_nil_r. apply Permutation_flat_map. apply EltSort.Permuted_sort.
+  - rewrite !app_nil_r. apply Permutation_flat_map. apply sort_by_perm.
+  - contradiction.
 Qed.
 
 Fixpoint given_run (ops : list alop) (oks : list bool) : list Z :=
@@ -919,17 +1062,17 @@ Fixpoint given_run (ops : list alop) (oks : list bool) : list Z :=
   end.
 
 Lemma spec_run_conserves ops : forall s oks,
-  Forall op_wf ops -> accepted_in_range s ops oks ->
+  Forall op_wf ops -> Forall no_setval ops -> accepted_in_range s ops oks ->
   Permutation (nonnull s ++ given_run ops oks)
               (nonnull (fst (spec_run s ops oks)) ++ snd (spec_run s ops oks)).
 Proof.
-  induction ops as [|o os IH]; intros s oks Hwf Hacc.
+  induction ops as [|o os IH]; intros s oks Hwf Hns Hacc.
   - destruct oks; cbn. all: reflexivity.
-  - inversion Hwf as [|? ? Ho Hos]; subst. destruct oks as [|[|] ks]; cbn [spec_run given_run accepted_in_range] in *.
+  - inversion Hwf as [|? ? Ho Hos]; subst. inversion Hns as [|? ? Hn Hnss]; subst. destruct oks as [|[|] ks]; cbn [spec_run given_run accepted_in_range] in *.
     + reflexivity.
-    + destruct Hacc as [Hok Hacc]. specialize (IH (fst (spec_step s o)) ks Hos Hacc).
+    + destruct Hacc as [Hok Hacc]. specialize (IH (fst (spec_step s o)) ks Hos Hnss Hacc).
       destruct (spec_run (fst (spec_step s o)) os ks) as [q rs]. cbn [fst snd] in *.
-      pose proof (spec_step_conserves s o Ho Hok) as P.
+      pose proof (spec_step_conserves s o Ho Hn Hok) as P.
       rewrite app_assoc. etransitivity; [apply Permutation_app_tail; exact P|].
       rewrite <- app_assoc.
       etransitivity; [apply Permutation_app_head, Permutation_app_comm|].
@@ -941,15 +1084,15 @@ Qed.
 (* from creation to destruction: the ids released during the history followed by those released
    by array_list_free are a permutation of the non-NULL ids the accepted operations handed over *)
 Theorem released_once al n ops a0 :
-  al_new2 al n = NOk a0 -> Forall op_wf ops ->
+  al_new2 al n = NOk a0 -> Forall op_wf ops -> Forall no_setval ops ->
   exists q oks rs fr, al_run al a0 ops = Some (q, oks, rs) /\ al_free q = Some fr /\
                       Permutation (given_run ops oks) (rs ++ fr).
 Proof.
-  intros Hn Hwf. pose proof (new2_spec al n) as N. rewrite Hn in N. destruct N as (HI0 & HA0 & _).
+  intros Hn Hwf Hns. pose proof (new2_spec al n) as N. rewrite Hn in N. destruct N as (HI0 & HA0 & _).
   destruct (run_refines al ops a0 HI0 Hwf) as (q & oks & rs & Hr & HIq & Hq & Hlen & Hacc).
   rewrite HA0 in Hq, Hacc. exists q, oks, rs, (nonnull (al_abs q)).
   split; [exact Hr|]. split; [apply free_spec; exact HIq|].
-  pose proof (spec_run_conserves ops [] oks Hwf Hacc) as P. rewrite <- Hq in P. cbn [fst snd nonnull flat_map app] in P.
+  pose proof (spec_run_conserves ops [] oks Hwf Hns Hacc) as P. rewrite <- Hq in P. cbn [fst snd nonnull flat_map app] in P.
   etransitivity; [exact P|]. apply Permutation_app_comm.
 Qed.
 
@@ -959,13 +1102,25 @@ Example run_nontrivial :
     al_new2 (fun _ => true) 0 = NOk a0 /\
     al_run (fun _ => true) a0
       [OAdd (Some 5); OAdd (Some 3); OPut 4 (Some 9); OInsert 1 (Some 7); OPut 0 (Some 6);
-       ODel 2 2; ODel 9 1; OSort; OShrink 0; OPut SIZE_MAX (Some 1)] = Some (q, oks, rs) /\
+       ODel 2 2; ODel 9 1; OSort Asc; OShrink 0; OPut SIZE_MAX (Some 1)] = Some (q, oks, rs) /\
     al_abs q = [None; Some 6; Some 7; Some 9] /\ rs = [5; 3] /\ asize q = 4 /\
     oks = [true; true; true; true; true; true; false; true; true; false] /\
-    al_bsearch q (Some 7) = Some true /\ al_bsearch q (Some 8) = Some false /\
+    al_bsearch Asc q (Some 7) = Some true /\ al_bsearch Asc q (Some 8) = Some false /\
     al_get q 4 = GOk None /\ al_free q = Some [6; 7; 9].
 Proof.
   exists (mkal [] 0 0). eexists _, _, _.
   split; [vm_compute; reflexivity|]. split; [vm_compute; reflexivity|].
   vm_compute. repeat split.
+Qed.
+
+(* sort, change a value in place, sort again by the same comparator, sort by the other one *)
+Example resort_nontrivial :
+  exists q oks rs,
+    al_run (fun _ => true) (mkal [] 0 0)
+      [OAdd (Some 5); OAdd (Some 1); OAdd None; OAdd (Some 3); OSort Asc; OSetVal 1 9; OSetVal 0 4;
+       OSort Asc; OSort Asc; OSort Desc] = Some (q, oks, rs) /\
+    al_abs q = [Some 9; Some 5; Some 3; None] /\
+    al_bsearch Desc q (Some 9) = Some true /\ al_bsearch Desc q (Some 1) = Some false.
+Proof.
+  eexists _, _, _. split; [vm_compute; reflexivity|]. vm_compute. repeat split.
 Qed.
